@@ -4,7 +4,10 @@ package bexpr
 // Oracle: the unrolled expression, parsed and evaluated by the same real code,
 // whose connective semantics is C03's table.
 
-import "strconv"
+import (
+	"reflect"
+	"strconv"
+)
 
 func nMaxC06() int {
 	if vTier() > 0 {
@@ -353,5 +356,81 @@ func H_C06_map_keys() {
 	o2 := outcomeOfUnrolled(parts, any, d)
 	vAssume(o1 != oPanic && o2 != oPanic)
 	vAssert(o1 == o2, expr+" over key "+strconv.Quote(k)+": equals its unrolling")
+	vCover("reached")
+}
+
+// wrapC06 is a protobuf-style wrapper; hookUnwrapC18 (one field named V) turns it into what it holds.
+type wrapC06 struct{ V interface{} }
+
+// hookUnwrapC06 looks through interfaces and pointers and replaces a
+// one-field struct whose field is named V by that field.
+func hookUnwrapC06(v reflect.Value) reflect.Value {
+	w := v
+	for w.IsValid() && (w.Kind() == reflect.Interface || w.Kind() == reflect.Ptr) {
+		if w.IsNil() {
+			return v
+		}
+		w = w.Elem()
+	}
+	if w.IsValid() && w.Kind() == reflect.Struct && w.NumField() == 1 && w.Type().Field(0).Name == "V" {
+		return w.Field(0)
+	}
+	return v
+}
+
+// H_C06_hook: the fold law holds under a value-transformation hook too — the
+// element a binding stands for is the element the direct selector reaches,
+// hook applied, whether the binding is used as the root of a selector, as a
+// prefix, or through a JSON Pointer.
+func H_C06_hook() {
+	n := 1 + vChoose(nMaxC06())
+	l := make([]interface{}, n)
+	for i := 0; i < n; i++ {
+		switch vChoose(3) {
+		case 0:
+			l[i] = wrapC06{V: vInt8()}
+		case 1:
+			l[i] = &wrapC06{V: map[string]interface{}{"f": vInt8()}}
+		default:
+			l[i] = vInt8()
+		}
+	}
+	var d interface{} = map[string]interface{}{"l": l}
+	if vBool() {
+		d = map[string]interface{}{"l": wrapC06{V: l}} // the collection itself is reached through the hook
+	}
+	any := vBool()
+	q, op := "all", "and"
+	if any {
+		q, op = "any", "or"
+	}
+	mode := vChoose(4)
+	parts := make([]string, n)
+	for i := 0; i < n; i++ {
+		is := strconv.Itoa(i)
+		switch mode {
+		case 0:
+			parts[i] = "l." + is + " == 1"
+		case 1:
+			parts[i] = "l." + is + ".f == 1"
+		case 2:
+			parts[i] = `"/l/` + is + `" != 1`
+		default:
+			parts[i] = "l." + is + " is empty"
+		}
+	}
+	expr := q + " l as x { " + []string{"x == 1", "x.f == 1", `"/x" != 1`, "x is empty"}[mode] + " }"
+	if vBool() {
+		expr = q + " l as _, x { " + []string{"x == 1", "x.f == 1", `"/x" != 1`, "x is empty"}[mode] + " }"
+	}
+	ev, err := CreateEvaluator(expr, WithHookFn(hookUnwrapC06))
+	un, err2 := CreateEvaluator(joinOp(parts, op, ""), WithHookFn(hookUnwrapC06))
+	if err != nil || err2 != nil {
+		vFail("harness expressions must parse")
+	}
+	o1, _, _ := evalO(ev, d)
+	o2, _, _ := evalO(un, d)
+	vAssume(o1 != oPanic && o2 != oPanic)
+	vAssert(o1 == o2, expr+": equals its unrolling under an unwrapping hook")
 	vCover("reached")
 }
